@@ -204,7 +204,9 @@ pub fn parse_line(line: &str) -> LineInfo {
             continue;
         }
 
-        if has_backslash && sep.is_empty() && (c == '>' || c == '<') {
+        if has_backslash && sep.is_empty()
+                && (c == '>' || c == '<'
+                    || (!met_parenthesis && (c == '&' || c == '*' || c == '~' || c == '{'))) {
             sep_made = String::from("'");
             token.push(c);
             has_backslash = false;
